@@ -169,6 +169,8 @@ fn sync_primitives() {
 pub fn main(opts: &Opts) -> ! {
     passthrough();
     sync_primitives();
+    let conformance = crate::conform::main(opts);
+    let _ = std::fs::write(crate::common::verif_dir().join("selftest_report.json"), serde_json::to_string_pretty(&serde_json::json!({"model_conformance": conformance})).unwrap_or_default());
     let n: u64 = (1500.0 * opts.scale) as u64;
     let stop = AtomicBool::new(false);
     let mut total = 0u64;
